@@ -15,7 +15,7 @@ C  seeded random fault scripts, halves free-running (real scheduling), and the r
    specification's); join, session gauge, summary byte counts and goroutine count are checked on the real Proxy.
    One corrupted trace must be rejected.
 """
-import copy, json, os
+import copy, json, os, re
 import vlib
 
 PKG = "pkg/station/lib"
@@ -36,6 +36,16 @@ def lost_after_data_err(src_log):
     if reads and reads[-1]["n"] > 0 and reads[-1]["e"] != "nil":
         return reads[-1]["n"]
     return 0
+
+
+def data_err_dropped(src_log, dst_log):
+    """the direction's last Read returned n > 0 bytes with an error and exactly those n bytes were never offered to Write"""
+    n = lost_after_data_err(src_log)
+    if not n:
+        return False
+    read = sum(e["n"] for e in src_log if e["op"] == "Read")
+    offered = sum(e["off"] for e in dst_log if e["op"] == "Write")
+    return offered == read - n
 
 
 def trace_fields(d):
@@ -157,7 +167,10 @@ def run(ctx):
         if name.startswith("NothingReadIsLost"):
             d = name.split(":")[1]
             src = f["client"] if d == "up" else f.get("covert") or []
-            cause = ":after-Read(n>0,err)" if lost_after_data_err(src) else ":other"
+            lost = lost_after_data_err(src)
+            m = re.search(r"read=(\d+)(?: refused=(\d+))? delivered=(\d+)", f["what"])
+            exact = m and int(m.group(1)) - int(m.group(2) or 0) - int(m.group(3)) == lost
+            cause = ":after-Read(n>0,err)" if lost and exact else ":other"
         ctx.violation("final:%s:%s%s" % (f["mode"], name, cause),
                       "real %s run %d ends in a state violating %s" % (f["mode"], f["run"], f["what"]), f)
     traces = [[trace_fields(x)] for x in runs]
@@ -176,15 +189,14 @@ def run(ctx):
         if idx >= len(cur) or "TRACE_REACHED" not in tr["out"]:
             raise vlib.InfraError("trace validation failed unexpectedly:\n" + tr["out"][-3000:])
         bad = cur[idx][0]
-        import re
         m = re.search(r'TRACE_FRONT", (\d+), (\d+), (\d+)', tr["out"])
         ic, iv = (int(m.group(2)), int(m.group(3))) if m and int(m.group(1)) == reached + 1 else (0, 0)
         cause = "other"
-        for lg, i in ((bad["client"], ic), (bad["covert"], iv)):
-            rd = [e for e in lg[:i] if e["op"] == "Read"]
-            if rd and rd[-1]["n"] > 0 and rd[-1]["e"] != "nil":
+        if bad["mode"] == "full":
+            if data_err_dropped(bad["client"], bad["covert"]) or data_err_dropped(bad["covert"], bad["client"]):
                 cause = "after-Read(n>0,err)"
-        if cause == "other" and bad["mode"] == "client" and lost_after_data_err(bad["client"]):
+        elif bad.get("cvok") and lost_after_data_err(bad["client"]) and \
+                bad["fin"]["bu"] == sum(e["n"] for e in bad["client"] if e["op"] == "Read") - lost_after_data_err(bad["client"]):
             cause = "after-Read(n>0,err)"
         nxt = [lg[i] for lg, i in ((bad["client"], ic), (bad["covert"], iv)) if i < len(lg)]
         ctx.violation("trace:rejected:%s:%s" % (bad["mode"], cause),
